@@ -1,6 +1,6 @@
 """C05 Matrix factorisations are exact, structured and charge-compatible (tenpy's part, modulo LAPACK contracts).
 
-The real `np_conserved.svd / qr / lq / eigh / eig / eigvalsh / eigvals / expm / pinv / polar / orthogonal_columns`
+The real `np_conserved.svd / qr / lq / eigh / eig / eigvalsh / eigvals / speigs / expm / pinv / polar / orthogonal_columns`
 run on matrices with symbolic entries; every per-block LAPACK call returns fresh symbols constrained by the
 documented contract only (`symx/lapack.py`).  What is decided is tenpy's block / charge bookkeeping around LAPACK.
 
@@ -27,8 +27,8 @@ BOUNDS = {
              'qtotal_LR (none/L/R/both/inconsistent), inner_qconj, inner_labels, mode, pos_diag_R/L, qtotal_Q, sort, UPLO, polar left',
     'thorough': 'additionally Tier A with 3 blocks per leg and two charges (U1 x Z2), complex Tier A, 3x3 blocks in Tier B',
 }
-OUTSIDE = ('numerical accuracy of LAPACK and the NaN fallback driver (anynan is stubbed to False for symbolic blocks); float rounding '
-           'in `cutoff`; speigs (ARPACK iteration); compiled kernels (C04); charges beyond int64')
+OUTSIDE = ('numerical accuracy of LAPACK / ARPACK and the NaN fallback driver (anynan is stubbed to False for symbolic blocks); float '
+           'rounding in `cutoff`; the ordering `which` of speigs; compiled kernels (C04); charges beyond int64')
 STUBS = [
     'symx/lapack.py: svd_flat -> U diag(S) V = A, U^dag U = 1 (+ U U^dag = 1 if square), V V^dag = 1 (+ V^dag V = 1 if square), '
     'S >= 0 descending, S[0] = 0 iff A = 0',
@@ -39,6 +39,7 @@ STUBS = [
     'symx/lapack.py: np.linalg.eigh -> H V = V diag(W), V unitary, W real ascending (H from the UPLO triangle); eigvalsh -> same W',
     'symx/lapack.py: np.linalg.eig -> A V = V diag(W), columns of V normalised; eigvals -> same W',
     'symx/lapack.py: scipy.linalg.expm -> fresh symbols, functional per path, expm(0) = 1',
+    'symx/lapack.py: tools.math.speigs (_sp_speigs) -> min(k, d) eigenpairs of the given block, A V = V diag(W), columns normalised',
     'symx/stubs.py: BLAS contract, numpy facade on np_conserved / tools.misc (np.real, np.abs, np.conj, linalg.norm on object arrays)',
     'symx/ideal.py: obligations that are combinations (monomial multipliers, rational coefficients found by z3, re-checked '
     'exactly) of the contract hypotheses',
@@ -653,6 +654,13 @@ def speigs_case(ctx, tier, struct, mods=None, qconjs=(1, -1), cplx=True, subset=
         ctx.prove(len(given) >= 1, f'{tag}: the eigensolver is called for a stored block')
         if given:
             ctx.prove_eq(given[-1], restr, f'{tag}: the block handed to the eigensolver is the restriction of a to the requested sector')
+    Wall = res if not eigv else res[0]
+    if not ctx.symbolic and stored:
+        # concrete twin of the obligation above: the eigenvalues are eigenvalues of the restriction of a to the requested sector
+        ex = np.linalg.eigvals(restr)
+        scale = max(1., float(np.max(np.abs(ex)))) if len(ex) else 1.
+        ctx.prove(all(np.min(np.abs(ex - w)) < 1.e-8 * scale for w in Wall),
+                  f'{tag}: the block handed to the eigensolver is the restriction of a to the requested sector')
     if not eigv:
         W = res
         ctx.prove(len(W) == min(k, len(idx)), f'{tag}: min(k, dimension of the sector) eigenvalues')
